@@ -10,6 +10,8 @@ package main
 // releases G goroutines through one barrier, and reports what each returned.
 
 import (
+	"time"
+	"context"
 	"bytes"
 	"crypto"
 	"crypto/rsa"
@@ -268,13 +270,15 @@ func c19Cold(r *mon.Run, raceBin string) {
 		for rep := 0; rep < reps; rep++ {
 			ldir := filepath.Join(dir, fmt.Sprintf("log-%s-%d", sc, rep))
 			os.MkdirAll(ldir, 0o755)
-			cmd := exec.Command(raceBin, "-prop", "C19")
+			ctx, cancel := context.WithTimeout(context.Background(), 10*time.Minute) // generous watchdog; firing is inconclusive
+			cmd := exec.CommandContext(ctx, raceBin, "-prop", "C19")
 			cmd.Env = append(os.Environ(), "VCHECK_C19_COLD="+sc, "VCHECK_C19_COLD_DIR="+dir, "VCHECK_CHILD=1",
 				fmt.Sprintf("GOMAXPROCS=%d", []int{16, 4, 2}[rep%3]),
 				"GORACE=halt_on_error=0 log_path="+filepath.Join(ldir, "race")+" history_size=2")
 			var stderr bytes.Buffer
 			cmd.Stderr = &stderr
 			out, runErr := cmd.Output()
+			cancel()
 			replay := map[string]any{"scenario": sc}
 			var cr coldReport
 			if jerr := json.Unmarshal(out, &cr); jerr != nil || cr.Err != "" {
